@@ -1,11 +1,20 @@
 import Model.Proto
 import Model.Bits
+import Model.Search
 /-! Driver for stream `primitives` (C20): executes the model on the same operation lines as harness/c20.cc. -/
-open KV KV.Proto KV.Bits
+open KV KV.Proto KV.Bits KV.Search
 
 structure St where
   mem : Nat := 0
   size : Nat := 0
+  arr : Array Nat := #[]
+
+/-- canonical answer of a search: only presence is observable (with duplicates the index depends on the pivot) -/
+def showFound (arr : Array Nat) (key : Nat) : Option Nat → String
+  | some p => if arr.getD p 0 = key then "found" else "found-wrong"
+  | none => "absent"
+
+def natList (ws : List String) : Option (List Nat) := ws.mapM (·.toNat?)
 
 def step (s : St) (line : String) : St × String :=
   match words line with
@@ -45,6 +54,40 @@ def step (s : St) (line : String) : St × String :=
     match o.toNat? with
     | some o => (s, toString (readNonPositiveFloat31 s.mem o))
     | _ => (s, "bad-op")
+  | "arr" :: rest =>
+    match natList rest with
+    | some xs => ({ s with arr := xs.toArray }, "ok")
+    | none => (s, "bad-op")
+  | ["suf32", k] =>   -- SortedUniformFind<Pivot32> over the whole array
+    match k.toNat? with
+    | some k => (s, showFound s.arr k (sortedUniformFind (fun i => s.arr.getD i 0) pivot32 k 0 s.arr.size))
+    | none => (s, "bad-op")
+  | ["suf64", k] =>   -- SortedUniformFind<Pivot64>: any in-range pivot gives the same answer (theorem); use the capped zero pivot
+    match k.toNat? with
+    | some k => (s, showFound s.arr k (sortedUniformFind (fun i => s.arr.getD i 0) (pivot64 fun _ _ _ => 0) k 0 s.arr.size))
+    | none => (s, "bad-op")
+  | ["bsuf32", k, mx] =>  -- BoundedSortedUniformFind<Pivot32>(begin-1, 0, end, max, key): positions shifted by one
+    match k.toNat?, mx.toNat? with
+    | some k, some mx =>
+      let a := fun i => if i = 0 then 0 else s.arr.getD (i - 1) 0
+      let r := bfind a pivot32 k (s.arr.size + 1) 0 0 (s.arr.size + 1) mx
+      (s, match r with
+          | some p => if a p = k then "found" else "found-wrong"
+          | none => "absent")
+    | _, _ => (s, "bad-op")
+  | ["bsuf64", k, mx] =>
+    match k.toNat?, mx.toNat? with
+    | some k, some mx =>
+      let a := fun i => if i = 0 then 0 else s.arr.getD (i - 1) 0
+      let r := bfind a (pivot64 fun o r w => o * w / (r + 1)) k (s.arr.size + 1) 0 0 (s.arr.size + 1) mx
+      (s, match r with
+          | some p => if a p = k then "found" else "found-wrong"
+          | none => "absent")
+    | _, _ => (s, "bad-op")
+  | ["bin", k] =>
+    match k.toNat? with
+    | some k => (s, showFound s.arr k (binaryFind (fun i => s.arr.getD i 0) k s.arr.size 0 s.arr.size))
+    | none => (s, "bad-op")
   | ["dump"] => (s, bytesToHex (natToLe s.mem s.size))
   | ["rb", v] =>
     match v.toNat? with
